@@ -10,7 +10,8 @@
                                                            took right after setup
        [a |-> "iter", bi, it, rolls, obs |-> [maxRew, bestSol, ver]]
              rolls = ALL rollouts of the iteration in the row order of the code: i = the data-set instance the row was rolled
-             out on, recognised BY CONTENT (pairwise distances / demands of the row's own state) -- not by its position;
+             out on, recognised BY CONTENT (pairwise distances / demands of the row's own state) -- not by its position
+             (0: the row's data is congruent to NO instance of the data set);
              rew = the reward the environment returned (integer units); acts = the actions (padded to the common length)
              obs = the locals max_reward / best_solutions of training_step right after the incumbent update
        [a |-> "bend", bi, obs |-> buffers]                after on_train_batch_end
@@ -44,7 +45,7 @@ TInit == /\ tid \in 1..Len(Traces) /\ l = 0 /\ lastBuf = <<>> /\ bufBefore = <<>
 Fits(e) == CASE e.a = "setup"  -> pc = "init"
              [] e.a = "bstart" -> pc = "bstart" /\ e.bi = bi
              [] e.a = "iter"   -> pc = "iter" /\ e.bi = bi /\ it < par.maxIters /\ Len(e.rolls) = NRows
-                                  /\ \A f \in DOMAIN e.rolls : e.rolls[f].i \in 1..par.n /\ Len(e.rolls[f].acts) = Len(e.rolls[1].acts)
+                                  /\ \A f \in DOMAIN e.rolls : e.rolls[f].i \in 0..par.n /\ Len(e.rolls[f].acts) = Len(e.rolls[1].acts)
              [] e.a = "bend"   -> pc = "iter" /\ e.bi = bi /\ it > 0
              [] e.a = "end"    -> pc = "end"
              [] OTHER -> FALSE
@@ -85,10 +86,10 @@ M_RollBatch == (Is("iter") /\ ~(/\ \A f \in DOMAIN Cur.rolls : Cur.rolls[f].i \i
                                 /\ \A i \in BatchInsts : Cardinality({f \in DOMAIN Cur.rolls : Cur.rolls[f].i = i}) = S1 * Copies))
                => Fail("rollouts-of-own-batch")
 \* every rollout is a solution of the instance it was rolled out on, and its reward is the objective ON THE ORIGINAL instance
-M_RollScore == (Is("iter") /\ ~\A f \in DOMAIN Cur.rolls : Scores(Cur.rolls[f].i, Cur.rolls[f].acts, Cur.rolls[f].rew))
+M_RollScore == (Is("iter") /\ ~\A f \in DOMAIN Cur.rolls : Cur.rolls[f].i > 0 => Scores(Cur.rolls[f].i, Cur.rolls[f].acts, Cur.rolls[f].rew))
                => Fail("rollout-reward-is-objective-on-original")
 \* forced first moves are moves the environment offers at the start
-M_Start == (Is("iter") /\ ~\A f \in DOMAIN Cur.rolls : Cur.rolls[f].acts[1] \in FirstMoves(Cur.rolls[f].i))
+M_Start == (Is("iter") /\ ~\A f \in DOMAIN Cur.rolls : Cur.rolls[f].i > 0 => Cur.rolls[f].acts[1] \in FirstMoves(Cur.rolls[f].i))
            => Fail("start-node-feasible")
 (* ---- C15: best of ALL rollouts so far, achieved by the stored solution, never worse ---- *)
 RowsOK == Len(O.maxRew) = Bk /\ Len(O.bestSol) = Bk
